@@ -216,7 +216,13 @@ def s_state_query(vc):
     data = vc.sym_bytes("data")
     src = client if from_client else server
     ev = vc.new("mitmproxy.proxy.events:DataReceived", connection=src, data=data)
-    out = vc.call(L + ".state_query", layer, ev, on_yield=lambda cmd: None)
+    at_hook = {}   # the flow's query at the moment the hook fires (a later message with the same id may replace it)
+
+    def on_yield(cmd):
+        if is_cmd(cmd, "DnsRequestHook") or is_cmd(cmd, "DnsResponseHook") or is_cmd(cmd, "DnsErrorHook"):
+            at_hook[id(cmd)] = fields_of(vc, cmd.flow).get("request")
+
+    out = vc.call(L + ".state_query", layer, ev, on_yield=on_yield)
     vc.ensure("no_exception", out.ok)
     if not out.ok:
         return
@@ -244,18 +250,19 @@ def s_state_query(vc):
         fl = hk.flow
         if from_client:
             vc.ensure(f"msg{i}.request_hook", is_cmd(hk, "DnsRequestHook"))
-            vc.ensure(f"msg{i}.flow_carries_the_query", has_request(vc, fl) and fl.request is msg)
+            vc.ensure(f"msg{i}.flow_carries_the_query", at_hook.get(id(hk)) is msg)
             vc.ensure(f"msg{i}.goes_to_server", snd.connection is server)
             found = [f for k, f in (layer.flows.items if vc.mode == "sym" else list(layer.flows.items())) if vc.branch(k == msg.id)]
             vc.ensure(f"msg{i}.flow_registered_under_its_id", len(found) >= 1 and found[0] is fl)
         else:
             unsolicited = And(*[k != msg.id for k, _, _ in pre]) if pre else True   # the id matches no query the client has pending
             vc.ensure(f"msg{i}.response_hook", is_cmd(hk, "DnsResponseHook"))
-            vc.ensure_kf(f"msg{i}.reported_flow_carries_its_query", has_request(vc, fl), "KF-C27-1", unsolicited)
+            rq = at_hook.get(id(hk))
+            vc.ensure_kf(f"msg{i}.reported_flow_carries_its_query", rq is not None and not isnone(rq), "KF-C27-1", unsolicited)
             vc.ensure(f"msg{i}.goes_to_client", snd.connection is client)
-            if has_request(vc, fl):
-                vc.ensure(f"msg{i}.reply_id_matches_the_query", fl.request.id == msg.id)
-                vc.ensure(f"msg{i}.flow_is_the_pending_one", any(fl is f for _, f, _ in pre))
+            if rq is not None and not isnone(rq):
+                vc.ensure(f"msg{i}.reply_id_matches_the_query", rq.id == msg.id)
+                vc.ensure(f"msg{i}.flow_is_the_pending_one", any(fl is f and rq is q for _, f, q in pre))
 
 
 @scenario("layer.state_query.closed", functions=[L + ".state_query"])
